@@ -56,14 +56,26 @@ pub fn ret(tid: usize, code: usize, a: i64, b: i64) {
 }
 
 /// runs the schedule and returns the flattened trace (same encoding as the Coq models)
+/// progress of the schedule driver, watched by the watchdog thread of main(): a grant that does not return for 20 s ends the
+/// process with exit code 77 after printing the marker line `-9999` for the current case (the driver re-runs that case)
+pub static PROGRESS: std::sync::atomic::AtomicU64 = std::sync::atomic::AtomicU64::new(0);
+pub static IN_SCHEDULE: std::sync::atomic::AtomicBool = std::sync::atomic::AtomicBool::new(false);
+
 pub fn run_schedule(schedule: &[usize], locs: &LocMap) -> Vec<i64> {
     let mut out: Vec<i64> = Vec::new();
+    IN_SCHEDULE.store(true, std::sync::atomic::Ordering::SeqCst);
+    let out2 = run_schedule_inner(schedule, locs, &mut out);
+    IN_SCHEDULE.store(false, std::sync::atomic::Ordering::SeqCst);
+    let _ = out2;
+    out
+}
+fn run_schedule_inner(schedule: &[usize], locs: &LocMap, out: &mut Vec<i64>) {
     for &t in schedule {
+        PROGRESS.fetch_add(1, std::sync::atomic::Ordering::SeqCst);
         let stepped = verif::grant(t);
         if !stepped { out.extend_from_slice(&[0, t as i64]); }
-        flush_log(&mut out, locs);
+        flush_log(out, locs);
     }
-    out
 }
 
 pub fn flush_log(out: &mut Vec<i64>, locs: &LocMap) {
